@@ -74,14 +74,14 @@ PROPS = {
     "C07": {
         "rule": "(a) get_initialization_vector on boundary counters + random counters, both directions, against the regenerated Lean definition and the ISO predicate; "
                 "(b) random interleavings of new_request / handle_request (honest, replayed, tampered, garbage, no-data, malformed plaintext) / prepare / get_next / submit / response_ready / "
-                "retrieve / handle_response / stringify+parse of either role, some started near counter byte-carries and 2^32-40; the IV of every real ciphertext is identified by trial AES-256-GCM "
+                "retrieve / handle_response / stringify+parse of either role, some started near counter byte-carries, 4000 below u32::MAX and 1-3 steps before exhaustion (where the reader must produce no request, the device a bare status-10 message and every decryption must be refused without moving a counter); the IV of every real ciphertext is identified by trial AES-256-GCM "
                 "decryption with the keys read from the stringified state. A case is one operation line in its history; distinct by line text",
         "xlate_items": ["get_initialization_vector"],
         "trusted_base": ["Generated.getInitializationVector is translated from src/definitions/session.rs by rust/xlate on every run",
                          "hand-written session model IsoMdl/Model/Session.lean (counter side effects of both SessionManagers), tied by correspondence",
                          "aes-gcm crate used directly for trial decryption; AEAD integrity (symbolic ciphertexts in the model)"],
-        "level_text": "Lean theorems: the regenerated IV function equals the ISO 9.1.1.5 format for every non-overflowing counter; by induction over arbitrary operation lists of both roles (incl. failed decryptions and restores) the k-th encryption of a direction uses the ISO IV with counter k, hence no reuse below 2^32 messages; tied to the code by translation (leaf function) and correspondence (counter discipline, IV identified by trial decryption).",
-        "level_note": "Trusted: Lean kernel; xlate; session model validated by correspondence; restore = identity is C14's correspondence; overflow at 2^32-1 is excluded by the property and pinned by C07_overflow_point.",
+        "level_text": "Lean theorems: the regenerated IV function equals the ISO 9.1.1.5 format for every non-overflowing counter; by induction over arbitrary operation lists of both roles (incl. failed decryptions and restores) the k-th encryption of a direction uses the ISO IV with counter k, and a direction never performs 2^32 encryptions because the guarded encrypt refuses at u32::MAX (C07_never_wraps), hence no IV reuse in ANY history - the bound of the property is enforced by the modelled code, not assumed; tied to the code by translation (leaf function) and correspondence (counter discipline, IV identified by trial decryption).",
+        "level_note": "Trusted: Lean kernel; xlate; session model validated by correspondence; restore = identity is C14's correspondence; the refusal at u32::MAX (fix commit aa94dbf) is part of the hand model (atMax) and is exercised by correspondence at the boundary; the overflow point of the translated leaf function is pinned by C07_overflow_point.",
         "technique": "Lean 4 proof (invariant by induction over operation lists) + source translation + correspondence",
         "assumptions": ["fewer than 2^32 messages per direction (as in the property statement)", "AEAD integrity for identifying IVs by trial decryption"],
     },
